@@ -98,6 +98,30 @@ func (c *context) AssignActions() bool {
 		}
 	}
 
+	// The *! cardinality filters elements by calling their Discard method.
+	for _, prod := range c.ParserGrammar.Prods {
+		if RuleGenerated(prod.Rule) != notGenerated {
+			continue
+		}
+		for _, term := range prod.Terms {
+			rule, ok := term.(*lr1.Rule)
+			if !ok || RuleGenerated(rule) != generatedZeroOrMoreF {
+				continue
+			}
+			sliceType, ok := c.RuleGoTypes[rule].(*gotypes.Slice)
+			if !ok || sliceType.Elem() == nil {
+				// The element rule has no action method; that was reported above.
+				continue
+			}
+			if !c.hasDiscardMethod(sliceType.Elem()) {
+				c.Errs.Errorf(
+					prod.Position,
+					"%v: type %v must have a method Discard() bool",
+					rule.Name, sliceType.Elem())
+			}
+		}
+	}
+
 	if c.Errs.HasError() {
 		return false
 	}
@@ -153,6 +177,23 @@ func (c *context) AssignActions() bool {
 	}
 
 	return !c.Errs.HasError()
+}
+
+// hasDiscardMethod returns whether a variable of type t can be used as the
+// receiver of a call to Discard() bool.
+func (c *context) hasDiscardMethod(t gotypes.Type) bool {
+	obj, _, _ := gotypes.LookupFieldOrMethod(
+		t, true, c.ParserType.Obj().Pkg(), "Discard")
+	method, ok := obj.(*gotypes.Func)
+	if !ok {
+		return false
+	}
+	sig := method.Type().(*gotypes.Signature)
+	if sig.Params().Len() != 0 || sig.Results().Len() != 1 {
+		return false
+	}
+	result, ok := sig.Results().At(0).Type().Underlying().(*gotypes.Basic)
+	return ok && result.Kind() == gotypes.Bool
 }
 
 func (c *context) getActionMethods() map[string][]*actionMethod {
